@@ -110,8 +110,21 @@ def record_class(rid, rcls, cmds, bitnames):
         cells.append({"raw": raw, "vk": vk, "vi": vi, "vn": vn, "status": status, "err": err,
                       "bits": bits, "str": sres})
     ctor = []
+    from dali import command as _cmd
+    from dali.frame import BackwardFrame as _BF
+
+    class _Duck:                # looks like a backward frame, is none
+        as_integer, error = 3, False
+
+        def __len__(self):
+            return 8
     for label, bad in (("int", 5), ("str", "x"), ("bytes", b"\x01"), ("Frame8", Frame(8, 1)),
-                       ("ForwardFrame16", ForwardFrame(16, 1)), ("list", [1]), ("bool", True)):
+                       ("ForwardFrame16", ForwardFrame(16, 1)), ("list", [1]), ("bool", True),
+                       # other objects of the library that carry an answer, or look like one
+                       ("Response(None)", _cmd.Response(None)), ("Response(frame)", _cmd.Response(_BF(7))),
+                       ("own-class(None)", rcls(None)), ("own-class(frame)", rcls(_BF(7))),
+                       ("YesNoResponse(frame)", _cmd.YesNoResponse(_BF(255))), ("Command", _cmd.Command(ForwardFrame(16, 0))),
+                       ("BackwardFrame-class", _BF), ("tuple(frame)", (_BF(1),)), ("float", 7.0), ("duck", _Duck())):
         try:
             rcls(bad)
             ctor.append([label, "ok"])
